@@ -77,6 +77,21 @@ def run_values(tier, funcs, index, enums, res):
     res["bounds"] = "operand words %r: N / +N / -N -> EqualTo / MoreThan / LessThan with the value and, for -size, the unit suffix; everything else rejected" % c11.VALUE_WORDS
 
 
+def run_newer_names(tier, funcs, index, enums, res):
+    import c11_operands as c11
+    r = c11.explore_newer_names(funcs, index, enums)
+    res["functions_executed"].update(r.pop("functions_executed"))
+    for v in r.pop("violations"):
+        res["violations"].append({"key": "newer name | " + v["what"].split(" selects")[0], "summary": v["what"], "replayer": "newer_xy", "what": v["what"]})
+    for k, c in r.pop("unsupported").items():
+        res["unsupported"][k] = res["unsupported"].get(k, 0) + c
+    r["bound"] = "-newerXY spelling -> (X, Y) for %d words" % len(c11.NEWER_WORDS)
+    r["inputs_covered"] = r.pop("checks")
+    res["runs"].append(r)
+    res["target"] = "parse_str_to_newer_args from MIR (regex crate = Python re on the pattern text in the MIR)"
+    res["bounds"] = "words %r: -newer / -anewer / -cnewer / -newerXY select (m,m) / (a,m) / (c,m) / (X,Y); near-misses select nothing" % c11.NEWER_WORDS
+
+
 def run_batching(tier, funcs, index, enums, res):
     import c04_batching
     res["target"] = "CommandBuilderOptions::new + process_input with the real limiter chain; symbolic argument lengths, limits, line structure and child outcomes"
@@ -388,6 +403,8 @@ def main():
         res["target"], res["bounds"] = "", ""
         run_walk(tier, funcs, index, enums, res, text)
         run_prune(tier, funcs, index, enums, res, text)
+    elif prop == "C15":
+        run_newer_names(tier, funcs, index, enums, res)
     elif prop == "C14":
         run_values(tier, funcs, index, enums, res)
     elif prop == "C10":
